@@ -1,4 +1,5 @@
 import GrVerif.Proofs.Lines
+import GrVerif.Proofs.Lines2
 import GrVerif.Gen.Justify
 /-!
 # C19 — line breaking and justification keep every line a well-formed chain   (partial)
@@ -69,7 +70,7 @@ theorem slotjustify_records_do_not_overlap (levels : Nat) :
   · rw [if_neg (by omega), Nat.max_eq_right h]; omega
 
 
-/-! ### the two line-end slots of `Segment::justify` in front of the same slot (evaluated instances, not theorems over all streams)
+/-! ### the two line-end slots of `Segment::justify` (theorem over all streams, and evaluated instances of both removal orders)
 
 `Segment::justify` brackets a line with `addLineEnd(first slot)` and `addLineEnd(end)`; in a segment whose direction bit is set `end` can be
 the line's first slot, so both go in front of the same slot.  Taken out last-inserted-first (the order of the repaired `justify`, fix
@@ -79,10 +80,27 @@ def bracketSame (s : Seg) (n : Nat) (reverseOrder : Bool) : Option Seg :=
   (s.addLineEnd (some n) 64).bind fun (e1, s1) => (s1.addLineEnd (some n) 64).bind fun (e2, s2) =>
     if reverseOrder then (s2.delLineEnd e2).bind fun s3 => s3.delLineEnd e1 else (s2.delLineEnd e1).bind fun s3 => s3.delLineEnd e2
 
+/-- **The bracket of `Segment::justify` restores the stream.**  For every well-formed stream, any two of its slots `n` and `m` - the same
+slot included, which is what happens for a line of two bases in a segment whose direction bit is set - a line-end slot put in front of `n`,
+a second one in front of `m`, and both taken out again last-inserted-first (the order of the repaired `justify`) leave `first`, `last` and
+every link of the stream exactly as they were, whatever the allocator did (slots from the free chain or from a new block). -/
+theorem justify_bracket_restores_stream {s s1 s2 s3 s4 : Seg} {l : List Nat} {n m g e1 e2 : Nat}
+    (hl : Linked s l) (hc : Clean s l) (hn : n ∈ l) (hm : m ∈ l)
+    (h1 : s.addLineEnd (some n) g = some (e1, s1)) (h2 : s1.addLineEnd (some m) g = some (e2, s2))
+    (h3 : s2.delLineEnd e2 = some s3) (h4 : s3.delLineEnd e1 = some s4) : Linked s4 l :=
+  bracket_roundtrip hl hc hn hm h1 h2 h3 h4
+
+/-- the order of the theorem is the order of the code: `Gen/Justify.lean` records, from `src/Justifier.cpp` as it is on this run, that
+`Segment::justify` takes the line-end slot it inserted second (`m_last`) out first.  (On the pinned tree the value is `false` and this
+obligation fails: fix f76710b6.) -/
+theorem justify_takes_the_second_line_end_out_first : Gen.Justify.bracketRemovedLastInsertedFirst = true := by decide
+
 def seg2 : Seg :=
   { slots := #[({} : Slot).setNext (some 1), ({} : Slot).setPrev (some 0), {}, {}],
     first := some 0, last := some 1, free := [2, 3], numGlyphs := 2, numChars := 2 }
 
+example : Linked seg2 [0, 1] ∧ Clean seg2 [0, 1] := by
+  refine ⟨⟨by decide, by decide, rfl, rfl, by simp only [Chain]; decide⟩, ⟨by decide, by decide, by decide, by decide, by decide, rfl⟩⟩
 example : ((bracketSame seg2 0 true).map fun s => ((s.get 0).prev, (s.get 0).next, (s.get 1).prev, s.first, s.last)) =
     some (none, some 1, some 0, some 0, some 1) := by decide
 example : ((bracketSame seg2 0 false).map fun s => ((s.get 0).prev, (s.get 2).next)) = some (some 2, some 0) := by decide
